@@ -350,6 +350,8 @@ T_BoolSpell == (\A t \in BoolSpell.t : ParseBool(t) = Ok(TRUE)) /\ (\A t \in Boo
 T_DtSpell == \A v \in DtVals : \A t \in DtSpell(v) : ParseDatetime(t) = Ok(v)
 T_TdSpell == \A i \in 1..Len(TdSpellTable) : \A t \in TdSpellTable[i].t : ParseTimedelta(t) = Ok(TdSpellTable[i].v)
 T_BadRejected == \A ty \in {"int", "float", "datetime", "timedelta"} : \A t \in Bad(ty) : Denote(ty, t) = Err
-T_Spellings == inp = <<>> => (T_IntSpell /\ T_FloatSpell /\ T_BoolSpell /\ T_DtSpell /\ T_TdSpell /\ T_BadRejected)
+(* the theorems do not depend on the state: they are evaluated once, on the initial state of the
+   (int, single, unset) configuration, which every MC configuration must contain *)
+T_Spellings == (inp = <<>> /\ cfg = [type |-> "int", mult |-> FALSE, src |-> "unset"]) => (T_IntSpell /\ T_FloatSpell /\ T_BoolSpell /\ T_DtSpell /\ T_TdSpell /\ T_BadRejected)
 View == vars
 =============================================================================
